@@ -22,7 +22,7 @@ ASSUMPTIONS = ["the regular-language-inclusion reading of the property is a stat
                "language; runtime monitoring decides it only on the sampled members (stated gap, DESIGN §4/C13)",
                "every sampled member is validated by the real compiled regex before use"]
 FLOORS = {"quick": {"extractors_total": 6000, "extractors_sampled": 6000, "members_checked": 50000, "branch_cover_members": 50000,
-                    "doc_lossless_checks": 150, "stream_equal_full": 150, "stream_equal_sublist": 600, "long_documents": 500, "sublist_composition:0": 8, "sublist_composition:1": 8,
+                    "doc_lossless_checks": 150, "stream_equal_full": 150, "stream_equal_sublist": 600, "long_documents": 500, "member_token_checks": 12000, "stretched_members": 300, "sublist_composition:0": 8, "sublist_composition:1": 8,
                     "sublist_composition:2": 8, "sublist_composition:3": 8,
                     "case_insensitive_members": 150, "fold_substituted_members": 40},
           "thorough": {"extractors_sampled": 6000, "members_checked": 300000, "doc_lossless_checks": 3000,
@@ -44,6 +44,25 @@ def plan(tier, seed):
 
 def classify(v):
     return None
+
+
+STRETCH = [("long_blank", " ", " " * 70), ("long_digits", None, "1" * 70), ("long_newline_blank", ", ", ",\n" + " " * 66)]
+
+
+def stretched(e, s, rng):
+    """Variants of a member with a long run inside it (white space the pattern takes with \s*, a volume of
+    seventy digits): still members, but much longer than any filter string."""
+    out = []
+    for name, old, new in STRETCH:
+        if old is None:
+            m = re.search(r"\d+", s)
+            cand = s[:m.start()] + new + s[m.end():] if m else None
+        else:
+            i = s.find(old)
+            cand = s[:i] + new + s[i + len(old):] if i >= 0 else None
+        if cand and e.compiled_regex.search(cand):
+            out.append(cand)
+    return out
 
 
 def members(e, rng, k, rec):
@@ -117,6 +136,10 @@ def run_shard(spec, rec):
         # the few case-insensitive extractors (id., supra, stop words) get many
         # more members: they are where case folding matters
         ms = members(e, rng, spec["k"] * (40 if e.flags & re.I else 1), rec)
+        if ms and idx % 3 == spec["seed"] % 3:
+            st = stretched(e, ms[0], rng)
+            rec.count("stretched_members", len(st))
+            ms = ms + st
         if ms:
             rec.count("extractors_sampled")
         else:
@@ -131,6 +154,18 @@ def run_shard(spec, rec):
             if not any(x is e for x in got):
                 rec.violation("C13.own_extractor_filtered_out", dict(extractor=idx, regex=e.regex[:200], text=s,
                                                                    strings=list(e.strings)[:5], flags=int(e.flags)))
+            # ... and the filtered tokenizer really yields every token the member's own pattern finds in it
+            # (a member may be long: long reporter names, long digit runs, long white space inside)
+            try:
+                have = {(type(t).__name__, t.start, t.end) for t in ac.extract_tokens(s)}
+                lost = [m.span(1) for m in e.get_matches(s)
+                        if (type(e.get_token(m)).__name__, e.get_token(m).start, e.get_token(m).end) not in have]
+            except Exception as x:
+                rec.count("member_tokens_raised:" + type(x).__name__)
+                lost = []
+            rec.count("member_token_checks")
+            if lost:
+                rec.violation("C13.member_token_lost", dict(extractor=idx, regex=e.regex[:200], text=s), observed=lost[:3])
             if e.strings:
                 fold = lambda x: x.translate({0x130: "i", 0x131: "i", 0x17f: "s", 0x212a: "k"}).lower()  # noqa
                 hay = fold(s) if e.flags & re.I else s
